@@ -6,6 +6,7 @@ cd "$(dirname "$0")"
 export CARGO_NET_OFFLINE=true
 python3 tools/gen_constants.py
 python3 tools/gen_checksum.py
+python3 tools/gen_logic.py
 (cd coq && coq_makefile -f _CoqProject -o Makefile >/dev/null && timeout 3000 make -j16 >/dev/null)
 python3 - <<'P'
 import sys; sys.path.insert(0,'tools')
